@@ -85,13 +85,9 @@ Proof. intros p ts ov b f body c3. exact (loop_true_do_step gen_ptab p ts ov b f
 Theorem C14_loop_do_conditional : forall p ts ov b f body c3 c3',
   go gen_ptab (S (S f)) (QStmt (mkctx (TK KLoop :: p) (TK KDo :: ts) ov false)) = Ok (RS body c3) ->
   go gen_ptab (S (S f)) (QStmt (mkctx (TBool true :: TK KLoop :: p) (TK KDo :: ts) ov false)) = Ok (RS body c3') ->
-  same_modulo_pre (prev c3) (prev c3') ->
-  match go gen_ptab (S (S (S f))) (QStmt (mkctx p (TK KLoop :: TK KDo :: ts) ov b)),
-        go gen_ptab (S (S (S f))) (QStmt (mkctx p (TK KLoop :: TBool true :: TK KDo :: ts) ov b)) with
-  | Ok (RS s1 c1), Ok (RS s2 c2) => s1 = s2 /\ same_modulo_pre c1 c2
-  | Err, Err => True
-  | _, _ => False
-  end.
+  prev_smp c3 c3' ->
+  same_out (go gen_ptab (S (S (S f))) (QStmt (mkctx p (TK KLoop :: TK KDo :: ts) ov b)))
+           (go gen_ptab (S (S (S f))) (QStmt (mkctx p (TK KLoop :: TBool true :: TK KDo :: ts) ov b))).
 Proof. intros p ts ov b f body c3 c3'. exact (loop_do_conditional gen_ptab p ts ov b f body c3 c3' C14_do_not_infix). Qed.
 
 (* ---- layout, parser side ---- *)
@@ -118,8 +114,9 @@ Theorem C14_nl_in_brackets : forall ts ts' f,
   (match ts' with TComment :: _ => False | _ => True end) ->
   match parse_expression gen_ptab f ts, parse_expression gen_ptab f ts' with
   | Ok (e, c), Ok (e', c') => e = e' /\ rel false [] c c'
-  | Err, Err => True
+  | Err _ _, Err _ _ => True
   | Fuel, Fuel => True
+  | Panic, Panic => True
   | _, _ => False
   end.
 Proof. exact (nl_in_brackets gen_ptab C14_bracket_sane). Qed.
